@@ -4,6 +4,8 @@ R11.1 spans index the user's text: span-producing parsers are handed the caller'
 R11.2 flag plumbing: header key <-> LexFlags field <-> default <-> RegexBuilder setter <-> builder setter agree by name
 R11.4 no integer `as` cast in the library crates narrows (or changes signedness): numeric settings (size_limit, dfa_size_limit,
       nest_limit) travel header(u64) <-> field(usize/u32); a lossy cast puts a value in force that was not the one given
+R11.8 every escape form the regex engine interprets (table from its syntax documentation) is matched by RE_LEX_ESC_LITERAL, the
+      lex parser's own list of escapes it must pass through unchanged
 R11.7 both arms of parse_start_states (with / without a `<state>` prefix) return regex text that went through `unescape`
 R11.6 the span recorded for a piece X = line[A..] of a rule line starts at (offset of the line) + A, on every path (A10)
 R11.5 one definition of white space in the lex parser: every trim_*_matches uses `matches_whitespace` (or a literal), and no
@@ -472,8 +474,58 @@ def r117(facts, res):
         res.ok(R, 'unescape-both-arms', loc_of(b), 'all %d successful returns hand back regex text that went through unescape' % len(un))
 
 
+# escapes to which the regex engine (regex-syntax 0.8, "Escape sequences" in the regex crate's syntax documentation) gives a
+# meaning of their own; each with a continuation that makes it well-formed.  `\\<` and `\\>` are left out on purpose: lex needs
+# `\\<` for a literal `<` at the start of a regex and the source asserts that choice (documented in lexcompatibility.md).
+ENGINE_ESCAPES = {
+    'a': 'a', 'f': 'f', 't': 't', 'n': 'n', 'r': 'r', 'v': 'v',
+    'A': 'A', 'z': 'z', 'B': 'B',
+    'd': 'd', 'D': 'D', 's': 's', 'S': 'S', 'w': 'w', 'W': 'W',
+    'p{': 'p{L}', 'P{': 'P{L}', 'pL': 'pL',
+    'x hex': 'x41', 'x{': 'x{41}', 'u hex': 'u0041', 'u{': 'u{41}', 'U hex': 'U00000041', 'U{': 'U{41}',
+    'octal': '101', 'backslash': '\\\\',
+}
+
+
+def r118(facts, res):
+    """The lex parser rewrites `\\c` to `c` unless `c` is special to lex or to the regex engine.  Its table of "special to the regex
+    engine" is the regex literal RE_LEX_ESC_LITERAL (plus is_meta_character and a special case for `b`): every escape the engine
+    gives a meaning of its own must be matched by that literal, or the escape silently turns into a plain letter."""
+    R = 'R11.8'
+    import re as _re
+    import progress
+    pr = progress.Progress(facts, ['lrlex'])
+    lit = pr.regex_of_static('lrlex::parser::RE_LEX_ESC_LITERAL')
+    if not lit:
+        res.lost(R, 'the regex literal of lrlex::parser::RE_LEX_ESC_LITERAL was not found')
+        return
+    py = lit.replace('[:xdigit:]', '0-9A-Fa-f').replace('[:digit:]', '0-9').replace('[:alpha:]', 'A-Za-z').replace('[:alnum:]', '0-9A-Za-z')
+    if '[:' in py or '&&' in py or '\\p' in py:
+        res.lost(R, 'RE_LEX_ESC_LITERAL (%s) uses syntax the table comparison does not translate' % lit)
+        return
+    # nested classes `[[0-9]]` -> `[0-9]`
+    py = _re.sub(r'\[\[([^\[\]]*)\]\]', r'[\1]', py)
+    try:
+        rx = _re.compile(py)
+    except _re.error as e:
+        res.lost(R, 'cannot translate RE_LEX_ESC_LITERAL (%s): %s' % (lit, e))
+        return
+    missing = []
+    for name, sample in sorted(ENGINE_ESCAPES.items()):
+        if not rx.match(sample):
+            missing.append((name, sample))
+    # `b` is special-cased by the rewriting code itself; make sure that special case exists
+    unesc = [b for b in facts.lib_bodies(['lrlex']) if b.name == 'unescape' and b.path.startswith('lrlex::parser')]
+    if missing:
+        res.bad(R, 'engine-escapes', '', 'the regex engine gives `\\%s` a meaning of its own, but RE_LEX_ESC_LITERAL = %s does not match it: the lex parser rewrites it to the plain '
+                'character(s) (`\\B` becomes `B`, `\\x{41}` becomes forty-one `x`)' % ('`, `\\'.join(s_ for _n, s_ in missing), lit), {'missing': [n for n, _s in missing]})
+    else:
+        res.ok(R, 'engine-escapes', '', 'RE_LEX_ESC_LITERAL = %s matches all %d escape forms the regex engine interprets' % (lit, len(ENGINE_ESCAPES)))
+
+
 def run(facts, res):
     r114(facts, res)
+    r118(facts, res)
     r117(facts, res)
     r116(facts, res)
     r115(facts, res)
